@@ -37,11 +37,11 @@ def main():
         if rc: print("PATCH DOES NOT APPLY", o); return 1
         rc, o = sh("go build ./... && cd schema && go build ./...", cwd=vt); ran["build"] = rc
         if rc: print("DOES NOT BUILD", o[-2000:]); return 1
-        rc1, o1 = sh("go test -vet=off -count=1 -timeout 10m ./... 2>&1 | grep -v 'no test files' | tail -15", cwd=vt)
+        rc1, o1 = sh("go test -vet=off -count=1 -timeout 150s ./... 2>&1 | grep -v 'no test files' | tail -15", cwd=vt)
         bad = [l for l in o1.splitlines() if l.startswith("FAIL") or l.startswith("--- FAIL") or "panic:" in l]
         if bad:
             # one retry for the known flaky test
-            rc1, o1 = sh("go test -vet=off -count=1 -timeout 10m ./... 2>&1 | grep -v 'no test files' | tail -15", cwd=vt)
+            rc1, o1 = sh("go test -vet=off -count=1 -timeout 150s ./... 2>&1 | grep -v 'no test files' | tail -15", cwd=vt)
             bad = [l for l in o1.splitlines() if l.startswith("FAIL") or l.startswith("--- FAIL") or "panic:" in l]
         rc2, o2 = sh("go test -vet=off -count=1 ./... 2>&1 | tail -3", cwd=os.path.join(vt, "schema"))
         bad2 = [l for l in o2.splitlines() if l.startswith("FAIL")]
